@@ -4,6 +4,7 @@
 #pragma once
 #include "gen.hpp"
 #include "report.hpp"
+#include <stdexcept>
 #include <Eigen/Sparse>
 #include <Eigen/Eigenvalues>
 #include <Spectra/Util/SelectionRule.h>
@@ -460,10 +461,50 @@ inline void draw_nev_ncv(Draw& d, Index n, bool general, Index& nev, Index& ncv)
 // User-defined operator (the documented "class with rows(), cols(), perform_op and a Scalar typedef"):
 // dense product y = M x in the scalar type, counts applications, optionally throws at the k-th application,
 // validates the pointers it is handed.
+// The exception a faulting user operator throws. Four dynamic types are used (drawn per case) because a library that
+// catches "every std::exception" - or only runtime_error, or rethrows a sliced copy - treats them differently:
+//   kind 0: a plain class outside the std::exception hierarchy, 1: derived from std::exception,
+//   kind 2: derived from std::runtime_error (what a failing inner solver throws), 3: derived from std::invalid_argument.
+// Harnesses catch `const InjectedFault&` (a public base of all four) BEFORE any std:: handler and compare nonce and dynamic_kind().
 struct InjectedFault
 {
     long nonce;
+    int kind;
+    explicit InjectedFault(long n = 0, int k = 0) :
+        nonce(n), kind(k) {}
+    virtual ~InjectedFault() {}
+    virtual int dynamic_kind() const { return 0; }
 };
+struct InjectedFaultStd : public std::exception, public InjectedFault
+{
+    explicit InjectedFaultStd(long n) :
+        InjectedFault(n, 1) {}
+    const char* what() const noexcept override { return "injected fault (std::exception)"; }
+    int dynamic_kind() const override { return 1; }
+};
+struct InjectedFaultRuntime : public std::runtime_error, public InjectedFault
+{
+    explicit InjectedFaultRuntime(long n) :
+        std::runtime_error("injected fault (std::runtime_error)"), InjectedFault(n, 2) {}
+    int dynamic_kind() const override { return 2; }
+};
+struct InjectedFaultInvalid : public std::invalid_argument, public InjectedFault
+{
+    explicit InjectedFaultInvalid(long n) :
+        std::invalid_argument("injected fault (std::invalid_argument)"), InjectedFault(n, 3) {}
+    int dynamic_kind() const override { return 3; }
+};
+static const char* const FAULT_KIND_NAMES[4] = {"plain class", "std::exception subclass", "std::runtime_error subclass", "std::invalid_argument subclass"};
+[[noreturn]] inline void throw_injected_fault(long nonce, int kind)
+{
+    switch (kind)
+    {
+        case 1: throw InjectedFaultStd(nonce);
+        case 2: throw InjectedFaultRuntime(nonce);
+        case 3: throw InjectedFaultInvalid(nonce);
+        default: throw InjectedFault(nonce, 0);
+    }
+}
 
 template <typename S>
 class FunctorOp
@@ -476,6 +517,7 @@ public:
     mutable long calls = 0;
     mutable long fault_at = -1;  // throw InjectedFault at this application (1-based); -1 = never
     mutable long fault_nonce = 0;
+    mutable int fault_kind = 0;
     mutable long bad_pointers = 0;
     mutable long call_limit = -1;  // throw WorkBoundExceeded beyond this many applications
     mutable bool nan_operand_seen = false;
@@ -491,7 +533,7 @@ public:
     {
         calls++;
         if (fault_at > 0 && calls == fault_at)
-            throw InjectedFault{fault_nonce};
+            throw_injected_fault(fault_nonce, fault_kind);
         if (call_limit >= 0 && calls > call_limit)
             throw WorkBoundExceeded();
         const Index n = M.cols();
